@@ -5,6 +5,8 @@ package functions
 // Contracts for the verifier in /verif (comment-only file; no declarations).
 
 //@ func partitionDemand(input, demand, outflow, extraction)
+//@   kernel
+//@   states none
 //@   noalias
 //@   safety C16
 //@   requires input.len == demand.len && input.len == outflow.len && input.len == extraction.len
@@ -17,6 +19,8 @@ package functions
 //@   loop 0 invariant forall(t, 0, i, extraction.at(t) <= demand.at(t) && extraction.at(t) <= input.at(t) && outflow.at(t) >= 0)
 
 //@ func inputNode(input, output)
+//@   kernel causal-by-ensures
+//@   states none
 //@   noalias
 //@   safety C16
 //@   requires input.len == output.len
@@ -24,6 +28,8 @@ package functions
 //@   ensures [C16.input-identity] forall(t, 0, input.len, output.at(t) == input.at(t))
 
 //@ func sum(i1, i2, out)
+//@   kernel
+//@   states none
 //@   noalias
 //@   safety C16
 //@   requires i1.len == i2.len && i1.len == out.len
@@ -33,6 +39,8 @@ package functions
 //@   loop 0 invariant forall(t, 0, day, out.at(t) == i1.at(t) + i2.at(t))
 
 //@ func gate(trigger, incoming, outgoing)
+//@   kernel
+//@   states none
 //@   noalias
 //@   safety C16
 //@   requires trigger.len == incoming.len && trigger.len == outgoing.len
@@ -73,6 +81,8 @@ package functions
 //@   loop 0 invariant 1 <= mi && mi <= m && doy == dfc(y,mi,1) - dfc(y,1,1)
 
 //@ func dateGenerator(tick, startDate, startMonth, startYear, date, month, year, dayOfYear)
+//@   kernel
+//@   states none
 //@   noalias
 //@   safety C19
 //@   requires tick.len == date.len && tick.len == month.len && tick.len == year.len && tick.len == dayOfYear.len
@@ -85,3 +95,12 @@ package functions
 //@   loop 0 step [C19.emit-date] date.at(i) == real(pre(d)) && month.at(i) == real(pre(m)) && year.at(i) == real(pre(y))
 //@   loop 0 step [C19.emit-doy] dayOfYear.at(i) == real(dfc(pre(y),pre(m),pre(d)) - dfc(pre(y),1,1) + 1)
 //@   loop 0 step [C19.frame] forall(t, 0, i, date.at(t) == pre(date.at(t)) && month.at(t) == pre(month.at(t)) && year.at(t) == pre(year.at(t)) && dayOfYear.at(t) == pre(dayOfYear.at(t)))
+
+//@ func computeProportion
+//@   structural only
+//@   kernel
+//@   states none
+//@ func baseflowFilter
+//@   structural only
+//@   kernel
+//@   states none
